@@ -253,7 +253,8 @@ pub fn check(case: &MCase, probe: &Probe) -> Verdict {
             Ok(l) => l,
             Err(e) => return Verdict::Fail(describe(&format!("`list` stdout is not one JSON object: {e}"), &lo)),
         };
-        let mut got: Vec<(String, String)> = listing.iter().map(|b| (b.file.clone(), b.name.clone())).collect();
+        // (the batch renderer interleaves rule-less `plain…` blocks; they are listed too and not part of the expectation)
+        let mut got: Vec<(String, String)> = listing.iter().filter(|b| !b.name.starts_with("plain")).map(|b| (b.file.clone(), b.name.clone())).collect();
         let mut want: Vec<(String, String)> = laid.iter().flat_map(|l| l.names.iter().map(|n| (l.path.clone(), n.clone()))).collect();
         got.sort();
         want.sort();
